@@ -86,26 +86,88 @@ UNITS = [
     unit('co_await', 'sf_co_await', uses=('sp_arrow',), extra_types=dict(ACCESS_T, COAW='cocls::co_awaiter<cocls::future<int> >')),
 ]
 
-# ---- bounded drive over the real bodies (any order of copy / assign / drop / subscribe / resolve; single thread)
+# ---- reference lemma over the contracts (unbounded history; loop invariant)
+UNITS.append(dict(unit('lemma', 'sf_ctor_default'), enforce=None, harness='h_lemma', spec=['C17/sf_spec.h', 'C17/h_lemma.c'], loop_contracts=True, unwind=None,
+                  kind='lemma', under_contract=[], note='lemma over the reference-count clauses of the enforced contracts (shared macros of sf_spec.h)'))
+# ---- bounded drive over the real bodies: every order of <= L operations (enumerated here, executed concretely by CBMC)
 DRV = ['drv_default', 'drv_ctor_promise', 'drv_get_promise', 'drv_ready', 'drv_value', 'drv_copy_ctor', 'drv_copy_assign', 'drv_dtor', 'drv_resolve',
        'drv_drop_promise', 'drv_subscribe', 'drv_awaiter_init', 'drv_promise_move']
 SN_RX = r'^cocls::suspend_point<void>::suspend_now\(\)$'
-def drive(name, start, steps, tiers, timeout=900):
+MERGE_RX = r'^cocls::suspend_point<void>::operator<<\(cocls::suspend_point<void>&&\)$'
+CC, CA, DD, DA, AS, AP, SU, RV, BR, END = range(10)
+def scripts(maxlen, nh=3, na=2):
+    """all well-formed operation sequences of length 0..maxlen (abstract state: owners, subscriptions, resolved)"""
+    out = []
+    def rec(seq, owners, nsub, resolved):
+        out.append(list(seq))
+        if len(seq) == maxlen: return
+        for op in (CC, CA, DD, DA, AS, AP, SU, RV, BR):
+            o, ns, r = owners, nsub, resolved
+            if op in (CC, CA):
+                if not (1 <= owners < nh): continue
+                o += 1
+            elif op == DD:
+                if owners < 1: continue
+                o -= 1
+            elif op == DA:
+                if not (1 <= owners < nh): continue
+                o -= 1
+            elif op == AS:
+                if owners < 1: continue
+            elif op == AP:
+                if owners < 2: continue
+            elif op == SU:
+                if owners < 1 or nsub >= na: continue
+                ns += 1
+            elif op in (RV, BR):
+                if resolved: continue
+                r = True
+            rec(seq + [op], o, ns, r)
+    rec([], 1, 0, False)
+    return out
+MN = {CC: 'CC', CA: 'CA', DD: 'DD', DA: 'DA', AS: 'AS', AP: 'AP', SU: 'SU', RV: 'RV', BR: 'BR'}
+def drive(prefix, start, script_list, tiers, timeout=300):
+    """one unit per script: CBMC executes a fixed order almost concretely (~10 s); several scripts in one run do not stay concrete"""
+    units = []
     names = {d: '^%s$' % d for d in DRV}
     names.update({a: N[a] for a in ('fi_dtor', 'fi_ctor_default', 'fi_ctor_pfn', 'tr_invoke')})
     names_opt = {a: N[a] for a in ('sp_arrow', 'sp_make_default', 'sp_make_pfn', 'aw_subscribe', 'env_promise_fn')}
-    names_opt['sp_suspend_now'] = SN_RX
+    names_opt['sp_suspend_now'] = SN_RX; names_opt['sp_merge'] = MERGE_RX
     t = dict(TYPES); t.update(ACCESS_T); t.update(MAKE_T); t.update(PFN='c17_promise_fn', CAW='c17_counting_awaiter')
-    return dict(name=name, driver='c17_shared_future.cpp', roots=['^%s$' % d for d in DRV] + [N['fi_dtor'], N['fi_ctor_default'], N['fi_ctor_pfn']],
-                names=names, names_opt=names_opt, types=t, globals=GLOBALS, boundary=BOUNDARY[:3] + [SN_RX], lib=LIBS,
-                defines=DEFINES + ['C17_DRIVE 1', 'DRIVE_START %d' % start, 'DRIVE_STEPS %d' % steps], spec=['C17/sf_spec.h', 'C17/h_drive.c'], harness='h_drive',
-                unwind=max(steps, 4) + 2, object_bits=10, kind='bounded', tiers=tiers, timeout=timeout, cbmc_flags=['--sat-solver', 'cadical'], solver='sat(cadical)',
-                bounded='one shared state, <= 3 handles, <= 2 function awaiters, every sequence of %d operations (copy / assign / drop / subscribe / resolve with value / break the promise) followed by completion; single thread; creation by %s' % (steps, 'shared_future(Fn(promise))' if start == 1 else 'default construction + get_promise()'),
-                under_contract=[])
-UNITS += [
-    drive('drive_ctor', 1, 4, ['quick']), drive('drive_get_promise', 0, 4, ['quick']),
-    drive('drive_ctor_6', 1, 6, ['thorough'], 3000), drive('drive_get_promise_6', 0, 6, ['thorough'], 3000),
-]
+    how = 'shared_future(Fn(promise))' if start == 1 else 'default construction + get_promise()'
+    for sc in script_list:
+        mn = '_'.join(MN[o] for o in sc)
+        units.append(dict(name='%s_%s' % (prefix, mn), driver='c17_shared_future.cpp', roots=['^%s$' % d for d in DRV] + [N['fi_dtor'], N['fi_ctor_default'], N['fi_ctor_pfn']],
+                names=names, names_opt=names_opt, types=t, globals=GLOBALS, boundary=BOUNDARY[:3] + [SN_RX, MERGE_RX], lib=LIBS,
+                defines=DEFINES + ['C17_DRIVE 1', 'DRIVE_START %d' % start, 'DRIVE_LEN %d' % len(sc), 'DRIVE_SCRIPTS {%s}' % ','.join(str(x) for x in sc + [END])],
+                spec=['C17/sf_spec.h', 'C17/h_drive.c'], harness='h_drive', unwind=max(len(sc), 4) + 2, object_bits=10, kind='bounded', tiers=tiers, timeout=timeout,
+                cbmc_flags=['--sat-solver', 'cadical'], solver='sat(cadical)',
+                bounded='ONE fixed order, single thread, real bodies: create by %s; %s; then read through every remaining copy and destroy every handle (3 handle slots, 2 function awaiters, symbolic value)' % (how, ' '.join(MN[o] for o in sc)),
+                under_contract=[]))
+    return units
+# quick tier: the orders the property statement singles out (every handle dropped while pending, resolution before / after copying
+# and destruction, awaiters through different copies, late awaiters, broken promise, assignments that must not change anything)
+QUICK_CTOR = [[RV], [DD, RV], [DD, BR], [CC, SU, SU, RV], [CA, DD, DD, RV], [SU, DD, RV], [CA, CC, RV, DD, DA, SU], [SU, BR, CC, DD],
+              [CC, AS, AP, RV, AS], [RV, CC, SU, DD, DD], [SU, CC, DD, SU, DD, RV], [CC, DA, SU, BR, DD]]
+QUICK_GP = [[RV], [DD, RV], [CC, SU, SU, RV], [SU, DD, BR], [RV, CA, SU, DD, DD], [CC, DD, DD, RV]]
+def exhaustive(maxlen):
+    """every well-formed order of <= maxlen operations that contains the resolution, over the order-relevant alphabet
+    (copy / drop / subscribe / resolve / break); the copy and drop flavours alternate so that all four members are exercised"""
+    out = []
+    for sc in scripts(maxlen):
+        if any(o in (CA, DA, AS, AP) for o in sc): continue
+        if not any(o in (RV, BR) for o in sc): continue
+        nc = nd = 0; t = []
+        for o in sc:
+            if o == CC: t.append(CC if nc % 2 == 0 else CA); nc += 1
+            elif o == DD: t.append(DD if nd % 2 == 0 else DA); nd += 1
+            else: t.append(o)
+        # DA needs an empty slot: with 3 slots it is available whenever owners < 3
+        out.append(t)
+    return out
+UNITS += drive('drive_ctor', 1, QUICK_CTOR, ['quick', 'thorough']) + drive('drive_gp', 0, QUICK_GP, ['quick', 'thorough'])
+_q = set(tuple(x) for x in QUICK_CTOR)
+UNITS += drive('drive_all_ctor', 1, [x for x in exhaustive(4) if tuple(x) not in _q], ['thorough'])
 
 META = dict(
     level='proof',
